@@ -213,13 +213,16 @@ class VTKWriter:
 
     def _write_nodal_fields(self, vtkFile):
 
-        allFieldsAreEmpty = not self.nodalFields
+        # Pad copies of the records for the sphere points. The writer's own
+        # records must not change, so that repeated writes are identical.
+        nodalFields = dict(self.nodalFields)
+        allFieldsAreEmpty = not nodalFields
         if not allFieldsAreEmpty or len(self.spheres) > 0:
             coords = self.mesh.coords[self.outputNodes]
             nnodes = coords.shape[0]
 
-            for field in self.nodalFields:
-                fieldRecord = self.nodalFields[field]
+            for field in nodalFields:
+                fieldRecord = nodalFields[field]
                 for sphere in self.spheres:
                     uNew = np.vstack( (fieldRecord.data,
                                        default_values(fieldRecord.fieldType, fieldRecord.dataType)) )
@@ -227,19 +230,18 @@ class VTKWriter:
                                                       fieldRecord.fieldType,
                                                       fieldRecord.dataType)
                     
-                self.nodalFields[field] = fieldRecord
+                nodalFields[field] = fieldRecord
 
             if len(self.spheres) > 0:
-                nnodes = self.mesh.coords.shape[0]
                 vals = np.zeros( (nnodes,) )
                 vals = np.hstack( (vals, np.array(self.sphereRadii) ) )
-                self.nodalFields['sphere_radius'] = self.VTKFieldRecord(vals.reshape(vals.shape[0],1),
-                                                                        VTKFieldType.SCALARS,
-                                                                        VTKDataType.DOUBLE)
+                nodalFields['sphere_radius'] = self.VTKFieldRecord(vals.reshape(vals.shape[0],1),
+                                                                   VTKFieldType.SCALARS,
+                                                                   VTKDataType.DOUBLE)
         
                 
             vtkFile.write('POINT_DATA {}\n'.format(nnodes + len(self.spheres)))
-            self._write_out_all_fields_in_dict(self.nodalFields, vtkFile)
+            self._write_out_all_fields_in_dict(nodalFields, vtkFile)
             
         
     def _write_cell_fields(self, vtkFile):
